@@ -122,6 +122,7 @@ type vHarness struct {
 	n        int
 	deadline time.Duration
 	wmu      sync.Mutex
+	stuck    int // operations that ran into the deadline so far; after a few the remaining sequences are cut short
 }
 
 func (h *vHarness) cid(kind string) string {
@@ -377,6 +378,9 @@ func (h *vHarness) deliverySequence() {
 		req, fs := h.mkRequest(pool, kind)
 		vs, res := vSubscribe(s, nextID, req, false, h.deadline)
 		h.emit("spysub %s id=%d filters=%s res=%s\n", cid, nextID, fs, res)
+		if res == "blocked" {
+			h.stuck++
+		}
 		if res == "ok" {
 			vs.filters = fs
 			subs = append(subs, vs)
@@ -424,6 +428,9 @@ func (h *vHarness) deliverySequence() {
 			dec = "err"
 		}
 		res, late := vPublish(s, b, h.deadline)
+		if late != nil {
+			h.stuck++
+		}
 		if late != nil { // unblock whatever it is stuck on, so the run can go on
 			stop := make(chan struct{})
 			go func() {
@@ -457,6 +464,7 @@ func (h *vHarness) deliverySequence() {
 			bar := 1
 			if !ok {
 				bar = 0
+				h.stuck++
 			}
 			parts = append(parts, fmt.Sprintf("%d:%d:%d:%d", x.id, len(got), same, bar))
 		}
@@ -507,6 +515,9 @@ func (h *vHarness) deliverySequence() {
 			}
 		}
 		x.live = false
+		if res == "timeout" {
+			h.stuck++
+		}
 		h.emit("spyleave %s id=%d how=%s res=%s removed=%d\n", cid, x.id, how, res, removed)
 	}
 	n0 := r.Intn(5)
@@ -514,7 +525,7 @@ func (h *vHarness) deliverySequence() {
 		subscribe()
 	}
 	steps := 6 + r.Intn(8)
-	for i := 0; i < steps; i++ {
+	for i := 0; i < steps && h.stuck < 3; i++ {
 		switch k := r.Intn(10); {
 		case k < 6:
 			publish()
@@ -785,7 +796,7 @@ func TestVerifSpy(t *testing.T) {
 			outs[i] = buf.String()
 		}(i, x)
 	}
-	for i := 0; i < nseq; i++ {
+	for i := 0; i < nseq && h.stuck < 3; i++ {
 		h.deliverySequence()
 	}
 	wg.Wait()
